@@ -1,3 +1,458 @@
-(* C15P.v — proofs for C15 *)
-From DV Require Import DataModel Run_C15.
-Lemma placeholder_c15 : True. Proof. exact I. Qed.
+(* C15P.v — proofs of the C15 theorems (statements collected in props/C15.v). *)
+From DV Require Import DataModel Run_C15 DataModelP DataModelAgainP.
+From Coq Require Import Permutation.
+Local Open Scope N_scope.
+
+(* ------------------------------------------------------------------ from relations to the oracle's booleans *)
+Lemma Forall2_in_l : forall A B (R : A -> B -> Prop) l l', Forall2 R l l' -> forall a, In a l -> exists b, In b l' /\ R a b.
+Proof.
+  induction 1 as [|x y l l' Hxy _ IH]; intros a Ha; [destruct Ha|].
+  destruct Ha as [<-|Ha]; [exists y; split; [left; reflexivity | exact Hxy]|].
+  destruct (IH a Ha) as [b [Hb Hr]]. exists b. split; [right; exact Hb | exact Hr].
+Qed.
+Lemma Forall2_in_r : forall A B (R : A -> B -> Prop) l l', Forall2 R l l' -> forall b, In b l' -> exists a, In a l /\ R a b.
+Proof.
+  induction 1 as [|x y l l' Hxy _ IH]; intros b Hb; [destruct Hb|].
+  destruct Hb as [<-|Hb]; [exists x; split; [left; reflexivity | exact Hxy]|].
+  destruct (IH b Hb) as [a [Ha Hr]]. exists a. split; [right; exact Ha | exact Hr].
+Qed.
+Lemma list_ext_find : forall A (R : A -> A -> Prop) Q l l', list_ext R Q l l' -> forall a, In a l -> exists b, In b l' /\ R a b.
+Proof.
+  intros A R Q l l' [l1 [l2 [-> [H2 _]]]] a Ha. destruct (Forall2_in_l _ _ _ _ _ H2 a Ha) as [b [Hb Hr]].
+  exists b. split; [apply in_or_app; left; exact Hb | exact Hr].
+Qed.
+
+Lemma field_kept_of_ext : forall f fs', (exists g, In g fs' /\ field_ext f g) -> field_kept f fs' = true.
+Proof.
+  intros f fs' [g [Hg [H1 [H2 H3]]]]. unfold field_kept. apply existsb_exists. exists g. split; [exact Hg|].
+  rewrite H1, H2, H3, !N.eqb_refl. cbn. apply ftype_eqb_eq. reflexivity.
+Qed.
+Lemma ent_kept_of_ext : forall e es', (exists e', In e' es' /\ ent_ext e e') -> ent_kept e es' = true.
+Proof.
+  intros e es' [e' [He' [H1 [H2 H3]]]]. unfold ent_kept. apply existsb_exists. exists e'. split; [exact He'|].
+  rewrite H1, H2, N.eqb_refl. cbn. apply andb_true_iff. split; [apply short_eqb_eq; reflexivity|].
+  apply forallb_forall. intros f Hf. apply field_kept_of_ext. apply (list_ext_find _ _ _ _ _ H3). exact Hf.
+Qed.
+Lemma ns_kept_of_ext : forall n M', (exists n', In n' M' /\ ns_ext n n') -> ns_kept n M' = true.
+Proof.
+  intros n M' [n' [Hn' [H1 [H2 H3]]]]. unfold ns_kept. apply existsb_exists. exists n'. split; [exact Hn'|].
+  rewrite H1, H2, !N.eqb_refl. cbn.
+  apply forallb_forall. intros e He. apply ent_kept_of_ext. apply (list_ext_find _ _ _ _ _ H3). exact He.
+Qed.
+Lemma ext_stable_b : forall M M', model_ext M M' -> stable_b M M' = true.
+Proof.
+  intros M M' H. unfold stable_b. apply forallb_forall. intros n Hn. apply ns_kept_of_ext.
+  apply (list_ext_find _ _ _ _ _ H). exact Hn.
+Qed.
+
+Lemma findk_notin : forall A (key : A -> N) k l, ~ In k (map key l) -> findk key k l = None.
+Proof.
+  intros A key k l H. destruct (findk key k l) as [a|] eqn:Hf; [|reflexivity].
+  apply findk_some in Hf. destruct Hf as [Ha Hk]. exfalso. apply H. rewrite <- Hk. apply in_map. exact Ha.
+Qed.
+
+Lemma readable_bool : forall f, readable f -> f_nullable f || negb (is_none (f_default f)) || is_ref (f_type f) = true.
+Proof.
+  intros f H. unfold readable, needs_default in H.
+  destruct (f_nullable f), (f_default f), (is_ref (f_type f)); cbn in *; try reflexivity; discriminate.
+Qed.
+
+Lemma ext_newfields_b : forall M M', model_ext M M' -> NoDup (map n_name M) ->
+  (forall n, In n M -> NoDup (map e_name (n_ents n))) -> newfields_b M M' = true.
+Proof.
+  intros M M' [l1 [l2 [-> [H2 HQ]]]] Hnd Hend. unfold newfields_b. apply forallb_forall. intros n' Hn'.
+  apply in_app_or in Hn'. destruct Hn' as [Hn'|Hn'].
+  - destruct (Forall2_in_r _ _ _ _ _ H2 n' Hn') as [n [Hn [Hname [_ Hents]]]].
+    change (find_ns (n_name n') M) with (findk n_name (n_name n') M). rewrite Hname, (findk_nodup n_name M n Hnd Hn).
+    destruct Hents as [e1 [e2 [-> [HE2 HEQ]]]]. apply forallb_forall. intros e' He'.
+    apply in_app_or in He'. destruct He' as [He'|He'].
+    + destruct (Forall2_in_r _ _ _ _ _ HE2 e' He') as [e [He [Hen [_ Hflds]]]].
+      change (find_ent (e_name e') (n_ents n)) with (findk e_name (e_name e') (n_ents n)).
+      rewrite Hen, (findk_nodup e_name (n_ents n) e (Hend n Hn) He).
+      destruct Hflds as [f1 [f2 [-> [HF2 HFQ]]]]. apply forallb_forall. intros f' Hf'.
+      apply in_app_or in Hf'. destruct Hf' as [Hf'|Hf'].
+      * destruct (Forall2_in_r _ _ _ _ _ HF2 f' Hf') as [f [Hf [Hfn _]]].
+        assert (Hh : has_field (f_name f') (e_fields e) = true).
+        { apply (hask_In f_name). rewrite Hfn. apply in_map. exact Hf. }
+        rewrite Hh. reflexivity.
+      * rewrite Forall_forall in HFQ. destruct (HFQ f' Hf') as [Hr _].
+        pose proof (readable_bool f' Hr) as Hb. rewrite <- !orb_assoc. rewrite <- !orb_assoc in Hb. rewrite Hb. apply orb_true_r.
+    + rewrite Forall_forall in HEQ. specialize (HEQ e' He').
+      change (find_ent (e_name e') (n_ents n)) with (findk e_name (e_name e') (n_ents n)).
+      rewrite (findk_notin _ e_name _ _ HEQ). reflexivity.
+  - rewrite Forall_forall in HQ. specialize (HQ n' Hn').
+    change (find_ns (n_name n') M) with (findk n_name (n_name n') M).
+    rewrite (findk_notin _ n_name _ _ HQ). reflexivity.
+Qed.
+
+Lemma nodup_by_N : forall l, NoDup l -> nodup_by N.eqb l = true.
+Proof.
+  induction 1 as [|a l Ha _ IH]; cbn; [reflexivity|]. rewrite IH, andb_true_r. apply negb_true_iff.
+  destruct (existsb (N.eqb a) l) eqn:He; [|reflexivity]. exfalso. apply Ha. apply existsb_exists in He.
+  destruct He as [x [Hx He]]. apply N.eqb_eq in He. subst. exact Hx.
+Qed.
+Lemma nodup_by_short : forall l, NoDup l -> nodup_by short_eqb l = true.
+Proof.
+  induction 1 as [|a l Ha _ IH]; cbn; [reflexivity|]. rewrite IH, andb_true_r. apply negb_true_iff.
+  destruct (existsb (short_eqb a) l) eqn:He; [|reflexivity]. exfalso. apply Ha. apply existsb_exists in He.
+  destruct He as [x [Hx He]]. apply short_eqb_eq in He. subst. exact Hx.
+Qed.
+
+Lemma wf_model_tail : forall n M, wf_model (n :: M) -> wf_model M.
+Proof.
+  intros n M [H1 [H2 [H3 H4]]]. cbn in H1, H2. inversion H1. inversion H2. inversion H3. inversion H4. repeat split; assumption.
+Qed.
+
+(* no two entities of the whole model share a short name ("pos" / "nsid.pos") *)
+Lemma all_eshorts_nodup : forall M, wf_model M -> NoDup (all_eshorts M).
+Proof.
+  induction M as [|n M IH]; intros Hwf; [constructor|].
+  unfold all_eshorts. cbn [flat_map]. fold (all_eshorts M).
+  pose proof (wf_model_tail _ _ Hwf) as Hwf'. destruct Hwf as [Hn [Hi [Hw _]]].
+  inversion Hw as [|? ? [_ [Hs Hf]] Hw']. subst.
+  apply NoDup_app_intro; [exact Hs | apply IH; exact Hwf'|].
+  intros x Hx Hx2. apply in_map_iff in Hx. destruct Hx as [e [Hex He]].
+  unfold all_eshorts in Hx2. apply in_flat_map in Hx2. destruct Hx2 as [n2 [Hn2 Hx2]].
+  apply in_map_iff in Hx2. destruct Hx2 as [e2 [He2x He2]].
+  rewrite Forall_forall in Hf. destruct (Hf e He) as [Hp1 _].
+  rewrite Forall_forall in Hw'. destruct (Hw' n2 Hn2) as [_ [_ Hf2]]. rewrite Forall_forall in Hf2. destruct (Hf2 e2 He2) as [Hp2 _].
+  assert (Hpp : nspart n = nspart n2) by congruence.
+  cbn in Hn, Hi. inversion Hn as [|? ? Hnn _]. inversion Hi as [|? ? Hni _]. subst.
+  unfold nspart in Hpp. destruct (N.eqb (n_name n) 0) eqn:E1, (N.eqb (n_name n2) 0) eqn:E2; try discriminate.
+  - apply N.eqb_eq in E1. apply N.eqb_eq in E2. apply Hnn. rewrite E1, <- E2. apply in_map. exact Hn2.
+  - inversion Hpp as [Hid]. apply Hni. rewrite Hid. apply in_map. exact Hn2.
+Qed.
+
+Lemma wf_model_b : forall M, wf_model M -> wf_b M = true.
+Proof.
+  intros M Hwf. pose proof (all_eshorts_nodup M Hwf) as Hall. destruct Hwf as [Hn [Hi [Hw _]]].
+  unfold wf_b. rewrite (nodup_by_N _ Hn), (nodup_by_N _ Hi), (nodup_by_short _ Hall). cbn.
+  apply forallb_forall. intros n Hin. rewrite Forall_forall in Hw. destruct (Hw n Hin) as [Hen [_ Hf]].
+  rewrite (nodup_by_N _ Hen). cbn. apply forallb_forall. intros e He. rewrite Forall_forall in Hf.
+  destruct (Hf e He) as [_ [Hfn [Hfs _]]]. rewrite (nodup_by_N _ Hfn), (nodup_by_N _ Hfs). reflexivity.
+Qed.
+
+(* ------------------------------------------------------------------ one step, any verdict, any order *)
+Lemma upd_keeps_ids : forall o sys M v, wf_model (m_nss M) ->
+  keeps_ids M (fst (upd o sys M v)) /\ wf_model (m_nss (fst (upd o sys M v))).
+Proof.
+  intros o sys M v Hwf. pose proof (upd_ext o sys M v) as Hext. pose proof (upd_wf o sys M v Hwf) as Hwf'.
+  split; [|exact Hwf']. split; [apply ext_stable_b; exact Hext|]. split; [apply wf_model_b; exact Hwf'|].
+  destruct Hwf as [Hn [_ [Hw _]]]. apply ext_newfields_b; [exact Hext | exact Hn|].
+  intros n Hin. rewrite Forall_forall in Hw. apply (Hw n Hin).
+Qed.
+
+(* ------------------------------------------------------------------ all histories *)
+Lemma run_steps_hist_ok : forall steps os M, wf_model (m_nss M) -> hist_ok M (run_steps M steps os).
+Proof.
+  unfold hist_ok. induction steps as [|s steps IH]; intros os M Hwf; cbn [run_steps]; [exact I|].
+  destruct (upd (hd zero_oracle os) (s_sys s) M (s_ver s)) as [M' e] eqn:Hu.
+  destruct (upd_keeps_ids (hd zero_oracle os) (s_sys s) M (s_ver s) Hwf) as [Hk Hwf']. rewrite Hu in Hk, Hwf'. cbn [fst] in Hk, Hwf'.
+  cbn [chain]. split; [exact Hk | apply IH; exact Hwf'].
+Qed.
+
+Theorem ids_stable_all_histories : forall steps os, hist_ok empty_model (run_steps empty_model steps os).
+Proof. intros. apply run_steps_hist_ok. apply wf_model_nil. Qed.
+
+(* ------------------------------------------------------------------ where refusals come from *)
+Lemma upd_field_err : forall qfs f e, snd (upd_field qfs f) = Some e -> in_loop_err (Some e) = true.
+Proof.
+  intros qfs f e H. unfold upd_field in H. destruct (find_field (f_name f) qfs) as [g|]; [|inversion H; reflexivity].
+  destruct (negb (N.eqb (f_short f) (f_short g))); [inversion H; reflexivity|].
+  destruct (negb (ftype_eqb (f_type f) (f_type g))); [inversion H; reflexivity|].
+  destruct (f_nullable f && needs_default (f_nullable g) (f_default g) (f_type f)); [inversion H; reflexivity | discriminate].
+Qed.
+Lemma insert_new_err : forall news fs e, snd (insert_new news fs) = Some e -> e = EMissingDefault.
+Proof.
+  induction news as [|g news IH]; intros fs e H; cbn [insert_new] in H; [discriminate|].
+  destruct (needs_default (f_nullable g) (f_default g) (f_type g)); [inversion H; reflexivity | eapply IH; exact H].
+Qed.
+Lemma entity_update_err : forall o nsn e q x, snd (entity_update o nsn e q) = Some x -> in_loop_err (Some x) = true.
+Proof.
+  intros o nsn e q x H. unfold entity_update in H.
+  destruct (loop f_name (o_fld o nsn (e_name e)) (upd_field (e_fields q)) (e_fields e)) as [fs1 er1] eqn:Hl.
+  destruct er1 as [y|].
+  - cbn in H. inversion H. subst y.
+    assert (Hs : snd (loop f_name (o_fld o nsn (e_name e)) (upd_field (e_fields q)) (e_fields e)) = Some x) by (rewrite Hl; reflexivity).
+    apply loop_err_from in Hs. destruct Hs as [a [_ Ha]]. eapply upd_field_err. exact Ha.
+  - destruct (insert_new (sort_by (fun f => o_new o nsn (e_name e) (f_name f)) (new_fields e q)) fs1) as [fs2 er2] eqn:Hi.
+    destruct er2 as [y|]; [|discriminate]. cbn in H. inversion H. subst y.
+    assert (Hs : snd (insert_new (sort_by (fun f => o_new o nsn (e_name e) (f_name f)) (new_fields e q)) fs1) = Some x) by (rewrite Hi; reflexivity).
+    apply insert_new_err in Hs. subst. reflexivity.
+Qed.
+Lemma upd_ent_err : forall o nsn qes e x, snd (upd_ent o nsn qes e) = Some x -> in_loop_err (Some x) = true.
+Proof.
+  intros o nsn qes e x H. unfold upd_ent in H. destruct (find_ent (e_name e) qes) as [q|]; [|inversion H; reflexivity].
+  destruct (negb (short_eqb (e_short e) (e_short q))); [inversion H; reflexivity | eapply entity_update_err; exact H].
+Qed.
+Lemma upd_ns_err : forall o sys P n x, snd (upd_ns o sys P n) = Some x -> in_loop_err (Some x) = true.
+Proof.
+  intros o sys P n x H. unfold upd_ns in H. destruct (find_ns (n_name n) P) as [p|].
+  - destruct (negb (N.eqb (n_id p) (n_id n))); [inversion H; reflexivity|].
+    destruct (loop e_name (o_ent o (n_name n)) (upd_ent o (n_name n) (n_ents p)) (n_ents n)) as [es er] eqn:Hl.
+    destruct er as [y|]; [|discriminate]. cbn in H. inversion H. subst y.
+    assert (Hs : snd (loop e_name (o_ent o (n_name n)) (upd_ent o (n_name n) (n_ents p)) (n_ents n)) = Some x) by (rewrite Hl; reflexivity).
+    apply loop_err_from in Hs. destruct Hs as [a [_ Ha]]. eapply upd_ent_err. exact Ha.
+  - cbn in H. destruct (negb sys && negb (N.eqb (n_name n) 1)); [inversion H; reflexivity | discriminate].
+Qed.
+
+(* a version refused before the in-place loops (syntax / consistency / namespace rule) changes nothing *)
+Theorem refused_outside_loops_changes_nothing : forall o sys M v e,
+  snd (upd o sys M v) = Some e -> in_loop_err (Some e) = false -> fst (upd o sys M v) = M.
+Proof.
+  intros o sys M v e H Hnl. unfold upd in *. destruct (parse (if sys then 0 else 1) v) as [P|pe]; [|reflexivity].
+  destruct (ns_check_fails sys P); [reflexivity|].
+  destruct (loop n_name (o_ns o) (upd_ns o sys P) (m_nss M)) as [nss er] eqn:Hl.
+  destruct er as [y|]; [|discriminate]. cbn in H. inversion H. subst y. exfalso.
+  assert (Hs : snd (loop n_name (o_ns o) (upd_ns o sys P) (m_nss M)) = Some e) by (rewrite Hl; reflexivity).
+  apply loop_err_from in Hs. destruct Hs as [a [_ Ha]]. apply upd_ns_err in Ha. congruence.
+Qed.
+
+(* ------------------------------------------------------------------ determinism outside K1 *)
+Lemma entity_update_det : forall o1 o2 nsn e q, (length (new_fields e q) <= 1)%nat ->
+  snd (entity_update o1 nsn e q) = None -> entity_update o2 nsn e q = entity_update o1 nsn e q.
+Proof.
+  intros o1 o2 nsn e q Hlen Hok. unfold entity_update in *.
+  destruct (loop f_name (o_fld o1 nsn (e_name e)) (upd_field (e_fields q)) (e_fields e)) as [fs1 er1] eqn:Hl.
+  destruct er1 as [y|]; [discriminate|].
+  rewrite (loop_deterministic _ f_name (upd_field (e_fields q)) (upd_field (e_fields q)) (o_fld o1 nsn (e_name e)) (o_fld o2 nsn (e_name e)));
+    [|reflexivity | rewrite Hl; reflexivity].
+  rewrite Hl. rewrite !sort_by_short by exact Hlen. reflexivity.
+Qed.
+Lemma upd_ent_det : forall o1 o2 nsn qes e,
+  (forall q, find_ent (e_name e) qes = Some q -> (length (new_fields e q) <= 1)%nat) ->
+  snd (upd_ent o1 nsn qes e) = None -> upd_ent o2 nsn qes e = upd_ent o1 nsn qes e.
+Proof.
+  intros o1 o2 nsn qes e Hlen Hok. unfold upd_ent in *. destruct (find_ent (e_name e) qes) as [q|]; [|reflexivity].
+  destruct (negb (short_eqb (e_short e) (e_short q))); [reflexivity|]. apply entity_update_det; [apply Hlen; reflexivity | exact Hok].
+Qed.
+Definition ns_single_new (n : nspace) (P : list nspace) : Prop :=
+  forall p, find_ns (n_name n) P = Some p -> forall e, In e (n_ents n) ->
+  forall q, find_ent (e_name e) (n_ents p) = Some q -> (length (new_fields e q) <= 1)%nat.
+Lemma upd_ns_det : forall o1 o2 sys P n, ns_single_new n P ->
+  snd (upd_ns o1 sys P n) = None -> upd_ns o2 sys P n = upd_ns o1 sys P n.
+Proof.
+  intros o1 o2 sys P n Hsn Hok. unfold upd_ns in *. destruct (find_ns (n_name n) P) as [p|] eqn:Hf; [|reflexivity].
+  destruct (negb (N.eqb (n_id p) (n_id n))); [reflexivity|].
+  destruct (loop e_name (o_ent o1 (n_name n)) (upd_ent o1 (n_name n) (n_ents p)) (n_ents n)) as [es er] eqn:Hl.
+  destruct er as [y|]; [discriminate|].
+  rewrite (loop_deterministic _ e_name (upd_ent o1 (n_name n) (n_ents p)) (upd_ent o2 (n_name n) (n_ents p)) (o_ent o1 (n_name n)) (o_ent o2 (n_name n)));
+    [rewrite Hl; reflexivity | | rewrite Hl; reflexivity].
+  intros a Ha. symmetry. apply upd_ent_det.
+  - intros q Hq. apply (Hsn p Hf a Ha q Hq).
+  - apply (loop_ok_all e_name (upd_ent o1 (n_name n) (n_ents p)) (o_ent o1 (n_name n)) (n_ents n)); [rewrite Hl; reflexivity | exact Ha].
+Qed.
+
+Lemma multi_new_false : forall M P, multi_new M P = false -> forall n, In n M -> ns_single_new n P.
+Proof.
+  intros M P H n Hn p Hp e He q Hq. unfold multi_new in H.
+  pose proof (existsb_false_all _ _ _ H n Hn) as H1. cbn beta in H1. rewrite Hp in H1.
+  pose proof (existsb_false_all _ _ _ H1 e He) as H2. cbn beta in H2. rewrite Hq in H2.
+  apply N.leb_gt in H2. unfold len in H2. lia.
+Qed.
+
+(* outside K1 an accepted version gives the same model whatever the iteration orders *)
+Theorem upd_det : forall o1 o2 sys M v, k1_step M (mkS sys v) = false ->
+  snd (upd o1 sys M v) = None -> upd o2 sys M v = upd o1 sys M v.
+Proof.
+  intros o1 o2 sys M v Hk Hok. unfold k1_step in Hk. cbn [s_sys s_ver] in Hk. unfold upd in *.
+  destruct (parse (if sys then 0 else 1) v) as [P|pe]; [|reflexivity].
+  destruct (ns_check_fails sys P); [reflexivity|].
+  destruct (loop n_name (o_ns o1) (upd_ns o1 sys P) (m_nss M)) as [nss er] eqn:Hl.
+  destruct er as [y|]; [discriminate|].
+  rewrite (loop_deterministic _ n_name (upd_ns o1 sys P) (upd_ns o2 sys P) (o_ns o1) (o_ns o2));
+    [rewrite Hl; reflexivity | | rewrite Hl; reflexivity].
+  intros a Ha. symmetry. apply upd_ns_det.
+  - apply (multi_new_false _ _ Hk a Ha).
+  - apply (loop_ok_all n_name (upd_ns o1 sys P) (o_ns o1) (m_nss M)); [rewrite Hl; reflexivity | exact Ha].
+Qed.
+
+(* ... and so does a version refused before the loops *)
+Lemma upd_det_gen : forall o1 o2 sys M v, k1_step M (mkS sys v) = false ->
+  in_loop_err (snd (upd o1 sys M v)) = false -> upd o2 sys M v = upd o1 sys M v.
+Proof.
+  intros o1 o2 sys M v Hk Hnl. destruct (snd (upd o1 sys M v)) as [e|] eqn:Hs; [|apply upd_det; assumption].
+  unfold upd in *. destruct (parse (if sys then 0 else 1) v) as [P|pe]; [|reflexivity].
+  destruct (ns_check_fails sys P); [reflexivity|].
+  destruct (loop n_name (o_ns o1) (upd_ns o1 sys P) (m_nss M)) as [nss er] eqn:Hl.
+  destruct er as [y|]; [|discriminate]. cbn in Hs. inversion Hs. subst y. exfalso.
+  assert (Hs' : snd (loop n_name (o_ns o1) (upd_ns o1 sys P) (m_nss M)) = Some e) by (rewrite Hl; reflexivity).
+  apply loop_err_from in Hs'. destruct Hs' as [a [_ Ha]]. apply upd_ns_err in Ha. congruence.
+Qed.
+
+(* peers that apply the same versions — none of them of class K1 or K2 — hold the same models *)
+Theorem run_steps_det : forall steps os1 os2 M,
+  known_steps M steps os1 = (false, false) -> run_steps M steps os2 = run_steps M steps os1.
+Proof.
+  induction steps as [|s steps IH]; intros os1 os2 M Hk; cbn [run_steps]; [reflexivity|].
+  cbn [known_steps] in Hk.
+  destruct (upd (hd zero_oracle os1) (s_sys s) M (s_ver s)) as [M1 e1] eqn:H1.
+  destruct (known_steps M1 steps (tl os1)) as [k1 k2] eqn:Hks.
+  injection Hk as Hk1 Hk2. apply orb_false_iff in Hk1. apply orb_false_iff in Hk2.
+  destruct Hk1 as [Hk1a Hk1b]. destruct Hk2 as [Hk2a Hk2b]. subst k1 k2.
+  assert (Hs : s = mkS (s_sys s) (s_ver s)) by (destruct s; reflexivity).
+  rewrite Hs in Hk1a.
+  rewrite (upd_det_gen (hd zero_oracle os1) (hd zero_oracle os2) (s_sys s) M (s_ver s) Hk1a); [|rewrite H1; exact Hk2a].
+  rewrite H1. f_equal. apply IH. exact Hks.
+Qed.
+
+(* ------------------------------------------------------------------ closed witnesses *)
+Definition fS (k : N) : fdecl := mkFD k TStr None false false.       (* fk: String *)
+Definition fSn (k : N) : fdecl := mkFD k TStr None true false.       (* fk: String nullable *)
+Definition w_v1 : version := mkV 1 [(2, [mkED 1 false true [fS 1] []])].
+Definition w_v2 : version := mkV 2 [(2, [mkED 1 false true [fS 1; fSn 2; fSn 3] []])].
+Definition w_text_order : otab := mkOT [] [] [] [(2, 1, 2, 0); (2, 1, 3, 1)].
+Definition w_other_order : otab := mkOT [] [] [] [(2, 1, 2, 1); (2, 1, 3, 0)].
+Definition w_none : otab := mkOT [] [] [] [].
+Definition w_steps : list step := [mkS false w_v1; mkS false w_v2; mkS false w_v2].
+
+(* K1: two peers accept the same two versions and end with different field identifiers; the one
+   whose hash map did not follow the text then refuses the very same text (what a restart does) *)
+Lemma k1_witness :
+  let a := run_steps empty_model w_steps (map oracle_of [w_none; w_text_order; w_none]) in
+  let b := run_steps empty_model w_steps (map oracle_of [w_none; w_other_order; w_none]) in
+  map fst (firstn 2 a) = [None; None] /\ map fst (firstn 2 b) = [None; None]
+  /\ map snd (firstn 2 a) <> map snd (firstn 2 b)
+  /\ map fst a = [None; None; None] /\ map fst b = [None; None; Some EFieldOrdering].
+Proof.
+  cbv zeta. split; [vm_compute; reflexivity|]. split; [vm_compute; reflexivity|].
+  split; [vm_compute; intros H; discriminate|]. split; vm_compute; reflexivity.
+Qed.
+
+(* K2: valid for E1, invalid for E2: refused, and E1 has gained its field *)
+Definition w_w1 : version := mkV 1 [(2, [mkED 1 false true [fS 1] []; mkED 2 false true [fS 1; fS 2] []])].
+Definition w_w2 : version := mkV 2 [(2, [mkED 1 false true [fS 1; fSn 2] []; mkED 2 false true [fS 1] []])].
+Definition w_e1_first : otab := mkOT [] [(2, 1, 0); (2, 2, 1)] [] [].
+Definition w_e2_first : otab := mkOT [] [(2, 1, 1); (2, 2, 0)] [] [].
+Lemma k2_witness :
+  let M := fst (upd zero_oracle false empty_model w_w1) in
+  snd (upd zero_oracle false empty_model w_w1) = None /\
+  snd (upd (oracle_of w_e1_first) false M w_w2) = Some EMissingField /\ fst (upd (oracle_of w_e1_first) false M w_w2) <> M /\
+  snd (upd (oracle_of w_e2_first) false M w_w2) = Some EMissingField /\ fst (upd (oracle_of w_e2_first) false M w_w2) = M.
+Proof.
+  cbv zeta. split; [vm_compute; reflexivity|]. split; [vm_compute; reflexivity|].
+  split; [vm_compute; intros H; discriminate|]. split; vm_compute; reflexivity.
+Qed.
+
+(* the same, judged by the functions the harness evaluates *)
+Definition w_case_k1 : c15case := CBare w_steps [[w_none; w_text_order; w_none]; [w_none; w_other_order; w_none]].
+Definition w_case_k2 : c15case := CBare [mkS false w_w1; mkS false w_w2] [[w_none; w_e1_first]; [w_none; w_e2_first]].
+Definition w_case_k3 : c15case :=
+  CInst [(true, mkS false w_w1); (false, mkS false (mkV 2 [(2, [mkED 1 false true [fS 1] []])]))] [w_none; w_none].
+Lemma spec_witnesses :
+  spec_C15 w_case_k1 (run_C15 w_case_k1) = false /\ known_C15 w_case_k1 = [1; 2]%Z /\
+  spec_C15 w_case_k2 (run_C15 w_case_k2) = false /\ known_C15 w_case_k2 = [2]%Z /\
+  spec_C15 w_case_k3 (run_C15 w_case_k3) = false /\ known_C15 w_case_k3 = [2; 3]%Z.
+Proof. repeat split; vm_compute; reflexivity. Qed.
+
+(* hypotheses of the "outside known" theorems are satisfiable by non-trivial histories *)
+Definition w_v3 : version := mkV 3 [(2, [mkED 1 false true [fS 1; fSn 2] []; mkED 2 false true [fS 1] []]); (0, [mkED 1 false true [fS 1] []])].
+Definition w_v4 : version := mkV 4 [(2, [mkED 1 false true [fS 1; fSn 2; mkFD 3 TInt (Some 1) false false] []; mkED 2 true true [fS 1; fSn 5] []]); (0, [mkED 1 false true [fS 1] []])].
+Definition w_bad : version := mkV 5 [(2, [mkED 1 false true [fS 1; fS 1] []])].
+Definition w_case_clean : c15case :=
+  CBare [mkS false w_v1; mkS false w_v3; mkS false w_bad; mkS false w_v4; mkS false w_v4] [[w_none; w_none; w_none; w_none; w_none]; [w_none; w_e2_first; w_none; w_e2_first; w_none]].
+Lemma clean_witness :
+  known_C15 w_case_clean = [] /\ spec_C15 w_case_clean (run_C15 w_case_clean) = true /\
+  known_steps empty_model [mkS false w_v1; mkS false w_v3; mkS false w_bad; mkS false w_v4; mkS false w_v4] [] = (false, false) /\
+  map fst (run_steps empty_model [mkS false w_v1; mkS false w_v3; mkS false w_bad; mkS false w_v4; mkS false w_v4] []) = [None; None; Some EDupField; None; None].
+Proof. repeat split; vm_compute; reflexivity. Qed.
+
+(* ------------------------------------------------------------------ refused steps of a history outside K2 *)
+Theorem run_steps_refused_unchanged : forall steps os M,
+  snd (known_steps M steps os) = false -> refused_unchanged M (run_steps M steps os).
+Proof.
+  induction steps as [|s steps IH]; intros os M Hk; cbn [run_steps]; [exact I|].
+  cbn [known_steps] in Hk.
+  destruct (upd (hd zero_oracle os) (s_sys s) M (s_ver s)) as [M1 e1] eqn:H1.
+  destruct (known_steps M1 steps (tl os)) as [k1 k2] eqn:Hks. cbn [snd] in Hk.
+  apply orb_false_iff in Hk. destruct Hk as [Hk2a Hk2b]. cbn [refused_unchanged]. split.
+  - intros Hne. destruct e1 as [e|]; [|congruence].
+    pose proof (refused_outside_loops_changes_nothing (hd zero_oracle os) (s_sys s) M (s_ver s) e) as Hr.
+    rewrite H1 in Hr. cbn [fst snd] in Hr. apply Hr; [reflexivity | exact Hk2a].
+  - apply IH. rewrite Hks. exact Hk2b.
+Qed.
+
+(* ------------------------------------------------------------------ readers that address values by identifier *)
+Lemma list_ext_findk : forall A (key : A -> N) (R : A -> A -> Prop) Q l l' a,
+  (forall x y, R x y -> key y = key x) -> list_ext R Q l l' -> NoDup (map key l') -> In a l ->
+  exists b, findk key (key a) l' = Some b /\ R a b.
+Proof.
+  intros A key R Q l l' a Hkey Hext Hnd Ha. destruct (list_ext_find _ _ _ _ _ Hext a Ha) as [b [Hb Hr]].
+  exists b. split; [|exact Hr]. rewrite <- (Hkey a b Hr). apply findk_nodup; assumption.
+Qed.
+
+Theorem address_stable : forall o sys M v ns e f a, wf_model (m_nss M) ->
+  address (m_nss M) ns e f = Some a -> address (m_nss (fst (upd o sys M v))) ns e f = Some a.
+Proof.
+  intros o sys M v ns e f a Hwf Ha. pose proof (upd_ext o sys M v) as Hext. pose proof (upd_wf o sys M v Hwf) as Hwf'.
+  set (M' := m_nss (fst (upd o sys M v))) in *. unfold address in *.
+  destruct (find_ns ns (m_nss M)) as [n|] eqn:Hn; [|discriminate].
+  apply (findk_some n_name) in Hn. destruct Hn as [Hnin Hnname]. subst ns.
+  destruct Hwf' as [Hnd' [_ [Hw' _]]].
+  destruct (list_ext_findk _ n_name ns_ext _ _ _ n (fun x y H => proj1 H) Hext Hnd' Hnin) as [n' [Hfn' [_ [_ Hents]]]].
+  change (find_ns (n_name n) M') with (findk n_name (n_name n) M'). rewrite Hfn'.
+  destruct (find_ent e (n_ents n)) as [en|] eqn:He; [|discriminate].
+  apply (findk_some e_name) in He. destruct He as [Hein Hename]. subst e.
+  assert (Hwn' : wf_ns n'). { apply (findk_some n_name) in Hfn'. rewrite Forall_forall in Hw'. apply Hw'. apply Hfn'. }
+  destruct Hwn' as [Hend' [_ Hfor']].
+  destruct (list_ext_findk _ e_name ent_ext _ _ _ en (fun x y H => proj1 H) Hents Hend' Hein) as [en' [Hfe' [_ [Hsh Hflds]]]].
+  change (find_ent (e_name en) (n_ents n')) with (findk e_name (e_name en) (n_ents n')). rewrite Hfe'.
+  destruct (find_field f (e_fields en)) as [fl|] eqn:Hf; [|discriminate].
+  apply (findk_some f_name) in Hf. destruct Hf as [Hfin Hfname]. subst f.
+  assert (Hwe' : wf_ent en'). { apply (findk_some e_name) in Hfe'. rewrite Forall_forall in Hfor'. apply Hfor'. apply Hfe'. }
+  destruct Hwe' as [Hfnd' _].
+  destruct (list_ext_findk _ f_name field_ext _ _ _ fl (fun x y H => proj1 H) Hflds Hfnd' Hfin) as [fl' [Hff' [_ [Hfs Hft]]]].
+  change (find_field (f_name fl) (e_fields en')) with (findk f_name (f_name fl) (e_fields en')). rewrite Hff'.
+  rewrite Hsh, Hfs, Hft. exact Ha.
+Qed.
+
+(* any reader that locates a value through `address` returns, after any step of any history, what
+   it returned before for every name that existed *)
+Section Readers.
+  Variable store : Type.
+  Variable read_at : eshort * N * ftype -> store -> N -> option N.     (* address, database, row -> value *)
+  Definition read (M : list nspace) (ns e f : N) (db : store) (row : N) : option N :=
+    match address M ns e f with Some a => read_at a db row | None => None end.
+
+  Theorem read_stable : forall o sys M v ns e f db row, wf_model (m_nss M) ->
+    address (m_nss M) ns e f <> None ->
+    read (m_nss (fst (upd o sys M v))) ns e f db row = read (m_nss M) ns e f db row.
+  Proof.
+    intros o sys M v ns e f db row Hwf Hdef. unfold read.
+    destruct (address (m_nss M) ns e f) as [a|] eqn:Ha; [|congruence].
+    rewrite (address_stable o sys M v ns e f a Hwf Ha). reflexivity.
+  Qed.
+End Readers.
+
+Lemma run_steps_wf : forall steps os M, wf_model (m_nss M) -> Forall (fun r => wf_model (m_nss (snd r))) (run_steps M steps os).
+Proof.
+  induction steps as [|s steps IH]; intros os M Hwf; cbn [run_steps]; [constructor|].
+  destruct (upd (hd zero_oracle os) (s_sys s) M (s_ver s)) as [M' e] eqn:Hu.
+  pose proof (upd_wf (hd zero_oracle os) (s_sys s) M (s_ver s) Hwf) as Hwf'. rewrite Hu in Hwf'. cbn [fst] in Hwf'.
+  constructor; [exact Hwf' | apply IH; exact Hwf'].
+Qed.
+
+Theorem run_steps_addresses_kept : forall steps os M, wf_model (m_nss M) -> chain addresses_kept M (run_steps M steps os).
+Proof.
+  induction steps as [|s steps IH]; intros os M Hwf; cbn [run_steps]; [exact I|].
+  destruct (upd (hd zero_oracle os) (s_sys s) M (s_ver s)) as [M' er] eqn:Hu.
+  pose proof (upd_wf (hd zero_oracle os) (s_sys s) M (s_ver s) Hwf) as Hwf'. rewrite Hu in Hwf'. cbn [fst] in Hwf'.
+  cbn [chain]. split; [|apply IH; exact Hwf'].
+  intros ns e f a Ha. pose proof (address_stable (hd zero_oracle os) (s_sys s) M (s_ver s) ns e f a Hwf Ha) as H. rewrite Hu in H. exact H.
+Qed.
+
+(* ------------------------------------------------------------------ the same model again *)
+Theorem upd_again : forall o o' sys M v, wf_model (m_nss M) -> k1_step M (mkS sys v) = false ->
+  snd (upd o sys M v) = None -> upd o' sys (fst (upd o sys M v)) v = (fst (upd o sys M v), None).
+Proof.
+  intros o o' sys M v Hwf Hk Hok. unfold k1_step in Hk. cbn [s_sys s_ver] in Hk.
+  destruct (parse (if sys then 0 else 1) v) as [P|pe] eqn:Hp.
+  - apply (upd_again_gen o o' sys M v P Hwf Hp); [|exact Hok].
+    intros n Hn p Hfp e He q Hq. apply (multi_new_false _ _ Hk n Hn p Hfp e He q Hq).
+  - unfold upd in Hok. rewrite Hp in Hok. discriminate.
+Qed.
+
+(* every model a history reaches is well formed, so the theorem applies at every accepted step *)
+Theorem run_steps_again : forall steps os M, wf_model (m_nss M) ->
+  Forall (fun r => wf_model (m_nss (snd r))) (run_steps M steps os).
+Proof. exact run_steps_wf. Qed.
